@@ -542,6 +542,8 @@ func check(r *result) verdicts {
 				p = "C08"
 			}
 			v.fail(p, "job %d ran although a transitive dependency failed or did not run", j)
+			// an End hook of a Parallel is exactly such a job: it depends on every element job
+			v.fail("C10", "job %d ran although a transitive dependency failed or did not run", j)
 		}
 	}
 	errs := multierr.Errors(r.ret)
@@ -1502,11 +1504,13 @@ func runReportsStop(n, jobs int) (fails []string) {
 	for i := 0; i < jobs; i++ {
 		sched.Enqueue(bg, scheduler.Job{Run: func(context.Context) error { return nil }})
 	}
+	// let the loop run on its ticker for a moment: reports are then continuously due when Wait is called
+	time.Sleep(500 * time.Microsecond)
 	if err := sched.Wait(bg); err != nil {
 		fails = append(fails, fmt.Sprintf("reports-stop: Wait returned %v", err))
 	}
 	atomic.StoreInt32(&em.returned, 1)
-	time.Sleep(20 * time.Millisecond)
+	time.Sleep(5 * time.Millisecond)
 	if l := atomic.LoadInt32(&em.late); l > 0 {
 		fails = append(fails, fmt.Sprintf("%d state report(s) started after Wait had returned normally (N=%d, %d jobs, %d reports in all)", l, n, jobs, atomic.LoadInt32(&em.total)))
 	}
@@ -1717,7 +1721,7 @@ func main() {
 		for p, fs := range extra {
 			v[p] = append(v[p], fs...)
 		}
-		props := []string{"C01", "C03", "C05", "C06", "C07", "C08", "C09", "C19"}
+		props := []string{"C01", "C03", "C05", "C06", "C07", "C08", "C09", "C19", "C10"}
 		for _, p := range props {
 			if len(v[p]) == 0 {
 				fmt.Fprintf(w, "O %s ok\n", p)
@@ -1846,7 +1850,7 @@ func main() {
 			// reports stop once Wait has returned — also for a scheduler that never got a job
 			for i, c := range [][2]int{{2, 0}, {1, 0}, {3, 1}, {2, 5}} {
 				var fails []string
-				for rep := 0; rep < 40 && len(fails) == 0; rep++ {
+				for rep := 0; rep < 100 && len(fails) == 0; rep++ {
 					fails = runReportsStop(c[0], c[1])
 				}
 				fmt.Fprintf(w, "cap %d reportsstop N=%d jobs=%d capseed=%d capcount=%d\n", 800000+i, c[0], c[1], *seed, *capacity)
